@@ -224,3 +224,94 @@ pub fn stub_fidelity() -> i32 {
         2
     }
 }
+
+/// Every fault kind, injection point and code path the checks mean to exercise must actually
+/// have fired in a (scaled-down) quick run; a probe stuck at zero means the workload or fault mix
+/// no longer reaches it.
+pub fn reach() -> i32 {
+    let exe = std::env::current_exe().expect("exe");
+    let base = crate::runner::verif_dir().join("sim").join("target").join("selftest-reach");
+    let _ = std::fs::remove_dir_all(&base);
+    std::fs::create_dir_all(&base).expect("mkdir");
+    let mut bad = 0;
+    let mut run = |id: &str, scale: &str| -> Value {
+        let st = Command::new(&exe)
+            .args(["check", id, "--scale", scale])
+            .env("VERIF_EVIDENCE_DIR", &base)
+            .stdout(Stdio::null())
+            .status()
+            .expect("run check");
+        if !st.success() {
+            println!("check {} exited with {:?}", id, st.code());
+        }
+        serde_json::from_str(&std::fs::read_to_string(base.join(format!("{}.json", id))).unwrap_or_default()).unwrap_or(Value::Null)
+    };
+    // C18
+    let v = run("C18", "0.3");
+    let c = &v["coverage"]["counters_fired"];
+    let mut want: Vec<String> = Vec::new();
+    for k in ["set_tz", "unset_tz", "wait", "replace_file", "delete_file", "set_system_zone", "clock_jump_back"] {
+        want.push(format!("admin.{}", k));
+    }
+    for k in ["open_enoent", "open_eacces", "open_emfile", "open_eio", "read_eio", "eintr", "short_read", "lstat_error", "mtime_unavailable"] {
+        want.push(format!("fault.{}", k));
+    }
+    for seam in ["now", "env", "lstat", "open", "read", "sysname"] {
+        want.push(format!("inject.set_tz.before_{}", seam));
+        want.push(format!("inject.wait.before_{}", seam));
+        want.push(format!("inject.replace_file.before_{}", seam));
+    }
+    want.push("inject.clock_jump_back.before_env".into());
+    for k in ["first_load_on_fresh_thread", "reuse_within_1s", "revalidate_unchanged", "reload", "lstat_etc_localtime", "fallback_to_system_zone_query", "probe_zoneinfo_dir_1", "probe_zoneinfo_dir_2", "probe_zoneinfo_dir_3", "probe_zoneinfo_dir_4"] {
+        want.push(format!("reach.{}", k));
+    }
+    want.push("fault_relaxations_used".into());
+    for k in &want {
+        let n = c[k.as_str()].as_u64().unwrap_or(0);
+        if n == 0 {
+            println!("C18: probe {} never fired", k);
+            bad += 1;
+        }
+    }
+    for pc in v["coverage"]["per_config"].as_array().cloned().unwrap_or_default() {
+        if pc["r1_discriminating_after_tz_change"].as_u64().unwrap_or(0) == 0 {
+            println!("C18: no discriminating evaluation after a TZ change in {}", pc["config"]);
+            bad += 1;
+        }
+    }
+    println!("C18: {} probes checked", want.len());
+    // C16
+    let v = run("C16", "0.1");
+    let f = &v["coverage"]["fault_kinds_fired"];
+    let mut n16 = 0;
+    for k in crate::check16::FAULT_KINDS.iter().copied().chain(["truncation", "isut_without_isstd", "truncate_at_every_k", "byte_flip", "char_insert", "char_delete", "field_month_13", "field_week_0_or_6", "field_weekday_7", "field_julian_out_of_range", "field_hour_out_of_range", "trailing_text", "random_bytes", "read.eintr", "read.short_read", "public_route_on_faulted_file", "public_route_on_tz_string"]) {
+        n16 += 1;
+        if f[k].as_u64().unwrap_or(0) == 0 {
+            println!("C16: fault kind {} never fired", k);
+            bad += 1;
+        }
+    }
+    for k in ["must_accept", "must_reject", "survive_accepted", "totality_sweeps", "public_route_checks", "content_checks"] {
+        if v["coverage"]["verdicts"][k].as_u64().unwrap_or(0) == 0 {
+            println!("C16: verdict counter {} is zero", k);
+            bad += 1;
+        }
+    }
+    println!("C16: {} fault kinds checked", n16);
+    // C05
+    let v = run("C05", "0.3");
+    for k in ["instant_checks", "wall_checks", "roundtrip_checks", "wall_none", "wall_single", "wall_ambiguous", "exempt_seconds", "skipped_tight_zone"] {
+        if v["coverage"]["checks"][k].as_u64().unwrap_or(0) == 0 {
+            println!("C05: counter {} is zero", k);
+            bad += 1;
+        }
+    }
+    let _ = std::fs::remove_dir_all(&base);
+    if bad == 0 {
+        println!("selftest reach: OK");
+        0
+    } else {
+        println!("selftest reach: FAILED ({} probes at zero)", bad);
+        2
+    }
+}
